@@ -1,3 +1,4 @@
+import Std.Data.HashMap
 import PV.Model.FloatArith
 import PV.Generated.Score
 import PV.Model.SCC
@@ -12,6 +13,7 @@ import PV.Model.Decisions
 import PV.Model.Registry
 import PV.Model.LCOM
 import PV.Model.CBO
+import PV.Model.Clone
 /-!
 Line-protocol driver: runs the executable models on the cases the harness also ran on the
 implementation.  Core-only imports (links as a native executable).
@@ -311,6 +313,85 @@ def runCbo (t : Array String) : String :=
   let d := PV.CBO.deps (fun n => ex.contains n) ms
   s!"{d.length}|{joinWith "," (d.map toString)}"
 
+/-! ### clones (C08 / C09) -/
+def hexDigit (n : Nat) : Char := if n < 10 then Char.ofNat (48 + n) else Char.ofNat (87 + n)
+def hex64 (u : UInt64) : String :=
+  String.ofList ((List.range 16).map fun k => hexDigit ((u >>> (UInt64.ofNat (60 - 4 * k))).toNat % 16))
+def hexVal (c : Char) : Nat :=
+  if '0' ≤ c ∧ c ≤ '9' then c.toNat - 48 else if 'a' ≤ c ∧ c ≤ 'f' then c.toNat - 87 else 0
+def hexBytes (s : String) : List UInt8 :=
+  let rec go : List Char → List UInt8
+    | a :: b :: r => (UInt8.ofNat (hexVal a * 16 + hexVal b)) :: go r
+    | _ => []
+  go s.toList
+def tokN (s : String) : Nat := s.toNat?.getD 0
+
+def showPair (p : PV.Clone.Pair Float) : String := s!"{p.i}:{p.j}:{p.ty}:{hex64 p.sim.toBits}:{hex64 p.dist.toBits}"
+def showPairs (l : List (PV.Clone.Pair Float)) : String :=
+  let xs := (l.map showPair).toArray.qsort (· < ·)
+  if xs.isEmpty then "-" else joinWith " " xs.toList
+
+/-- `clones <mode> t1 t2 t3 t4 simThr maxDist minNodes minLines minSim maxSim enabledCSV maxPairs n (file s e size lines)*n m (i j simhex disthex)*m <mode args>` -/
+def runClones (t : Array String) : String :=
+  if t.size < 14 then "bad-op" else
+  let _inst : Arith Float := floatArith 0 0
+  let mode := t[0]!
+  let c : PV.Clone.Cfg Float := {
+    t1 := floatOfHex t[1]!, t2 := floatOfHex t[2]!, t3 := floatOfHex t[3]!, t4 := floatOfHex t[4]!,
+    simThr := floatOfHex t[5]!, maxDist := floatOfHex t[6]!, minNodes := tokN t[7]!, minLines := tokN t[8]!,
+    minSim := floatOfHex t[9]!, maxSim := floatOfHex t[10]!, enabled := (natList t[11]!).map Int.ofNat, maxPairs := tokN t[12]! }
+  let n := tokN t[13]!
+  let fb := 14
+  if t.size < fb + 5 * n + 1 then "bad-op" else
+  let frs : Array PV.Clone.Frag := (Array.range n).map fun k =>
+    { file := tokN t[fb + 5 * k]!, s := tokN t[fb + 5 * k + 1]!, e := tokN t[fb + 5 * k + 2]!, size := tokN t[fb + 5 * k + 3]!, lines := tokN t[fb + 5 * k + 4]! }
+  let fr : Nat → PV.Clone.Frag := fun i => frs.getD i default
+  let mb := fb + 5 * n
+  let m := tokN t[mb]!
+  if t.size < mb + 1 + 4 * m then "bad-op" else
+  let tbl : Std.HashMap (Nat × Nat) (Float × Float) := (List.range m).foldl (fun acc k =>
+    acc.insert (tokN t[mb + 1 + 4 * k]!, tokN t[mb + 1 + 4 * k + 1]!) (floatOfHex t[mb + 1 + 4 * k + 2]!, floatOfHex t[mb + 1 + 4 * k + 3]!)) {}
+  let cmp : PV.Clone.Cmp Float := fun i j => tbl.get? (i, j)
+  let ab := mb + 1 + 4 * m
+  match mode with
+  | "std" =>
+    s!"D {showPairs (PV.Clone.standard c fr cmp n)} | R {showPairs (PV.Clone.report c fr cmp n)}"
+  | "auto" =>
+    if t.size < ab + 4 then "bad-op" else
+    showPairs (PV.Clone.detectAuto c fr cmp n (tokI t[ab]!) (tokI t[ab + 1]!) (tokI t[ab + 2]!) (tokI t[ab + 3]!))
+  | "batch" =>
+    if t.size < ab + 2 then "bad-op" else
+    showPairs (PV.Clone.batched c fr cmp n (tokI t[ab]!) (tokI t[ab + 1]!))
+  | "lsh" =>
+    if t.size < ab + 4 then "bad-op" else
+    let bands := tokI t[ab]!
+    let rows := tokI t[ab + 1]!
+    let thr := floatOfHex t[ab + 2]!
+    let nh := tokN t[ab + 3]!
+    if t.size < ab + 4 + 2 * nh then "bad-op" else
+    let hs : List (Nat → Nat) := (List.range nh).map fun k =>
+      let a := (tokN t[ab + 4 + k]!).toUInt64
+      let b := (tokN t[ab + 4 + nh + k]!).toUInt64
+      fun x => (PV.Clone.hashFam a b x.toUInt64).toNat
+    -- per fragment: count, then hex-encoded feature strings
+    let rec feats (pos : Nat) (k : Nat) (acc : Array (List Nat)) : Array (List Nat) :=
+      match k with
+      | 0 => acc
+      | k + 1 =>
+        let cnt := tokN (t.getD pos "0")
+        let fs := (List.range cnt).map fun q => (PV.Clone.fnv64 (hexBytes (t.getD (pos + 1 + q) ""))).toNat
+        feats (pos + 1 + cnt) k (acc.push fs)
+    let fts := feats (ab + 4 + 2 * nh) n #[]
+    let sigArr : Array (List Nat) := fts.map fun fs => PV.Clone.signature hs (2 ^ 64 - 1) fs
+    let sigs : Nat → List Nat := fun i => sigArr.getD i []
+    let cand := PV.Clone.isCand PV.Clone.bandHash bands rows sigs
+    let est : Nat → Nat → Float := fun i j => PV.Clone.estimate (sigs i) (sigs j)
+    let ps := PV.Clone.lshDetect c fr cmp n cand est thr
+    let cs := (List.range n).map fun i => s!"{i}:" ++ joinWith "," (((List.range n).filter fun j => cand i j).map toString)
+    let ss := (List.range n).map fun i => joinWith "," ((sigs i).map toString)
+    s!"P {showPairs ps} | C {joinWith ";" cs} | S {joinWith ";" ss}"
+  | _ => "bad-op"
+
 def step (line : String) : String :=
   let parts := (line.splitOn " ").filter (· ≠ "")
   match parts with
@@ -331,6 +412,7 @@ def step (line : String) : String :=
     | "reg" => runReg t
     | "lcom" => runLcom t
     | "cbo" => runCbo t
+    | "clones" => runClones t
     | _ => "bad-op"
 
 partial def loop (h : IO.FS.Stream) (out : IO.FS.Stream) : IO Unit := do
